@@ -1,7 +1,7 @@
 (* C09 — k-medoids refinement never worsens the cost and keeps centres in the data.
    cost = sum of squared frame-to-centre distances (the code compares means over the same n > 0). *)
 From Coq Require Import List ZArith QArith.
-From EV Require Import Cluster ClusterCase ClusterBase ClusterInv ClusterPam ClusterKC ClusterTop ClusterExample KcGuardBase ClusterGen ClusterSkel ClusterGenProofs ClusterPamHistory.
+From EV Require Import Cluster ClusterCase ClusterBase ClusterInv ClusterPam ClusterKC ClusterTop ClusterExample KcGuardBase ClusterGen ClusterSkel ClusterGenProofs ClusterPamHistory ClusterPropose.
 Import ListNotations.
 
 (* a proposal is accepted iff it strictly lowers the cost; a rejected proposal leaves the state
@@ -121,6 +121,25 @@ Example c09_history_example :
      = kmedoids (Dline pos_id) (kcenters_cold (Dline pos_id) (Some 2%nat) 0 false 6) [[1; 4]]%nat.
 Proof. vm_compute. split; reflexivity. Qed.
 Print Assumptions c09_history_example.
+
+(* ---- the code's own proposals: drawn from the frames currently labelled cid.  Under the
+   invariant that set is never empty (random_state.choice cannot fail) and holds frame indices
+   only, so sweeps driven by ANY generator (a chooser per sweep) keep the guarantees *)
+Theorem c09_members_never_empty : forall D n s cid, Inv D n s -> (cid < length (fst s))%nat -> members s cid <> [].
+Proof. exact members_nonempty. Qed.
+Print Assumptions c09_members_never_empty.
+
+Theorem c09_members_are_frames_with_that_label : forall (s : st) cid p, In p (members s cid) ->
+  exists x, In x (snd s) /\ fid x = p /\ lab x = cid.
+Proof. exact members_have_label. Qed.
+Print Assumptions c09_members_are_frames_with_that_label.
+
+Theorem c09_random_sweeps_never_worsen : forall D, (forall f, D f f == 0) -> (forall c f, c <> f -> 0 < D c f) ->
+  forall n chs, Forall chooser_ok chs -> forall s, Inv D n s ->
+  Inv D n (run_choose D chs s) /\ length (fst (run_choose D chs s)) = length (fst s) /\
+  sumsq (snd (run_choose D chs s)) <= sumsq (snd s).
+Proof. exact run_choose_inv. Qed.
+Print Assumptions c09_random_sweeps_never_worsen.
 
 Example c09_example :
   st_show (hybrid_cold (Dline pos_id) (Some 2%nat) 0 6 [[1; 4]; [0; 3]]%nat) = ([1; 4]%nat, [0; 0; 0; 1; 1; 1]%nat, [1; 0; 1; 1; 0; 1])
